@@ -19,6 +19,7 @@ func init() {
 		ruleSlot(c, "C03.T4")
 		ruleA2(c, "C03.T5")
 		ruleNoent(c, "C03.T6")
+		ruleColdRead(c, "C03.T7")
 	}
 }
 
@@ -493,7 +494,7 @@ var _ = strings.HasPrefix
 // see: two copies of one inode, the older one written over the newer.
 func ruleSlot(c *Ctx, id string) {
 	V, P, R := c.V, c.P, c.R
-	R.Rule(id, "the inode-cache slot of a number is looked up only while that number's lock is held: in LockInode after Lockmap.Acquire of the same number on every path, in dropInodes for the inodes recorded as locked; nowhere else", 2)
+	R.Rule(id, "the inode-cache slot of a number is looked up only while that number's lock is held: in LockInode after Lockmap.Acquire of the same number on every path, in dropInodes for the inodes recorded as locked; nowhere else; the content of a slot (Cslot.Obj) is touched only by these holders of the lock", 6)
 	look := c.fn(id, "cache.(*Cache).LookupSlot")
 	if look == nil || V.LockInode == nil || V.LockAcquire == nil {
 		return
@@ -545,6 +546,57 @@ func ruleSlot(c *Ctx, id string) {
 	}
 	if n == 0 {
 		R.Fail(id, "cache.LookupSlot|callers", P.Pos(look.Pos()), "the inode cache is used", "no caller found")
+	}
+	// the content of a slot is protected by the inode's lock, not by the cache's mutex: only the two functions that
+	// hold that lock look into a slot, and only into the slot they obtained under it
+	cslot := P.Named("cache", "Cslot")
+	for _, fn := range P.RepoFuncs() {
+		if fn.Blocks == nil {
+			continue
+		}
+		for _, b := range fn.Blocks {
+			for _, in := range b.Instrs {
+				fa, ok := in.(*ssa.FieldAddr)
+				if !ok {
+					continue
+				}
+				nt, fld, base := FieldOf(fa)
+				if nt == nil || cslot == nil || nt.Obj() != cslot.Obj() || fld != "Obj" {
+					continue
+				}
+				root := stripConv(base)
+				for {
+					if f2, ok := root.(*ssa.FieldAddr); ok {
+						root = stripConv(f2.X)
+						continue
+					}
+					break
+				}
+				if _, fresh := root.(*ssa.Alloc); fresh {
+					continue // the slot being built
+				}
+				owner := ownerOf(fn)
+				okSite := false
+				src := "neither GetInodeLocked nor dropInodes"
+				if owner == V.GetInodeLocked || owner == drop {
+					for _, sc := range scopesOf(owner) {
+						if sc.Fn != fn {
+							continue
+						}
+						want := V.LockInode
+						if owner == drop {
+							want = look
+						}
+						if okD, m := derivesOnlyFrom(sc.S.resolve(stripConv(base)), funcIs(want), 0); okD && m > 0 {
+							okSite = true
+						} else {
+							src = "the slot is not the one returned by " + want.Name()
+						}
+					}
+				}
+				R.Check(okSite, id, FuncName(fn)+"|slot content touched under the inode lock", P.Pos(fa.Pos()), "Cslot.Obj is read or written only by GetInodeLocked (slot from LockInode) and dropInodes (slots of its own inodes)", "holder of the inode lock", "Cslot.Obj is accessed where the inode's lock is not held ("+src+"): the cache's own mutex does not protect the content of a slot - a data race with GetInodeLocked/dropInodes of the transaction that holds the lock")
+			}
+		}
 	}
 }
 
@@ -688,4 +740,47 @@ func statusEscapes(fn *ssa.Function, idx int) bool {
 		}
 	}
 	return false
+}
+
+// ---------------------------------------------------------------- a re-locked inode is read afresh
+
+// ruleColdRead: a transaction may look at an inode, give its lock up early
+// (the frozen early-release sites of T2: dir.Apply reads and releases every
+// child) and lock the same inode again later.  Between the two another
+// transaction may have changed and committed it.  jrnl.Op.ReadBuf answers from
+// the transaction's own buffers when it has read the address before, so a cold
+// read (cache slot empty) through ReadBuf hands the transaction its own stale
+// copy, which then becomes the shared cached inode (defect D38).  As long as
+// an early release exists, the inode decoded into an empty cache slot must come
+// from the committed state: obj.Log.Load.
+func ruleColdRead(c *Ctx, id string) {
+	V, P, R := c.V, c.P, c.R
+	R.Rule(id, "while early releases exist, the inode decoded into an empty cache slot by GetInodeLocked is read from the committed state (obj.Log.Load at Inum2Addr(inum)), never through the transaction's own buffer cache (jrnl.Op.ReadBuf), which may hold the copy read before the lock was given up", 1)
+	if V.GetInodeLocked == nil || V.Decode == nil || V.ReleaseInode == nil {
+		R.Fail(id, "vocabulary|GetInodeLocked/Decode/ReleaseInode", "", "the anchors exist", "GetInodeLocked, inode.Decode or ReleaseInode not found")
+		return
+	}
+	early := 0
+	for _, cs := range P.CallersOf(V.ReleaseInode) {
+		if IsRepoFunc(cs.Caller) && inServerPkg(cs.Caller) && FuncName(ownerOf(cs.Caller)) != "(*fstxn.FsTxn).releaseInodes" {
+			early++
+		}
+	}
+	if early == 0 {
+		R.Pass(id, "fstxn.GetInodeLocked|cold read from the committed state", P.Pos(V.GetInodeLocked.Pos()), "no early release of an inode lock exists: a transaction never locks an inode twice, its own buffers cannot be stale", "no caller of ReleaseInode outside the epilogue")
+		return
+	}
+	n := 0
+	for _, sc := range scopesOf(V.GetInodeLocked) {
+		R.Analysed[FuncName(sc.Fn)] = true
+		for _, call := range P.CallsIn(sc.Fn, funcIs(V.Decode)) {
+			n++
+			buf := sc.S.resolve(stripConv(argN(call, 0)))
+			ok, m := derivesOnlyFrom(buf, funcIs(V.LogLoad), 0)
+			R.Check(ok && m > 0, id, "fstxn.GetInodeLocked|cold read from the committed state", P.Pos(call.Pos()), "the buffer decoded into the empty cache slot is the result of obj.Log.Load", fmt.Sprintf("every producer of the decoded buffer is obj.Log.Load (%d); %d early-release sites exist", m, early), "the inode is decoded from a buffer that is not read from the committed state (jrnl.Op.ReadBuf answers from the transaction's own buffers: after dir.Apply read and released this inode, a later lock of it in the same transaction works on the stale copy and writes it back)")
+		}
+	}
+	if n == 0 {
+		R.Fail(id, "fstxn.GetInodeLocked|cold read from the committed state", P.Pos(V.GetInodeLocked.Pos()), "GetInodeLocked decodes the inode with inode.Decode", "no call of inode.Decode found in GetInodeLocked or its helpers: the rule cannot tell where a cold inode comes from")
+	}
 }
